@@ -1,5 +1,6 @@
 // govc:pkg .
 // govc:bound 1 query x 8 rows x 3 synchronous sinks of which the first panics on every third row
+// govc:also C19
 // Bounded stand-in (NOT a proof; panicking executions are outside the verifier's model): a user sink that panics on a row
 // does not keep the other synchronous sinks from receiving that row, and the rows still arrive in emission order.
 package streamsql
